@@ -42,12 +42,13 @@ vars == <<cfg, pv, rv, pc, wire, delivered, invoked, status, errname, rwire, ret
 \* the oracle: what the design promises
 \* nil and empty lists / maps / byte strings are the same "nothing there" (a query string or a header cannot
 \* even express the difference)
-Emptyish(a, v) == v # Absent /\ ((a.nest \in {"elem", "mapkey", "mapval", "elem_nested", "mapval_nested", "mapkey_alias", "whole_elem", "whole_mapval"} /\ v.cn = 0) \/ (a.kind = "bytes" /\ v.n = 0))
+ContainerNests == {"elem", "mapkey", "mapval", "mapval_elem", "elem_nested", "mapval_nested", "mapkey_alias", "whole_elem", "whole_mapval"}
+Emptyish(a, v) == v # Absent /\ ((a.nest \in ContainerNests /\ v.cn = 0) \/ (a.kind = "bytes" /\ v.n = 0))
 \* (for a required list the generated client sends [] when the caller left it nil: either reading is allowed;
 \* an optional list that is left unset is simply not there, and constraints apply to present values only)
 \* the zero value of a defaulted (non-pointer) field is indistinguishable from "unset" for the caller: either
 \* reading is allowed
-IsContainer(a) == a.nest \in {"elem", "mapkey", "mapval", "elem_nested", "mapval_nested", "mapkey_alias", "whole_elem", "whole_mapval"} \/ a.kind = "bytes"
+IsContainer(a) == a.nest \in ContainerNests \/ a.kind = "bytes"
 EmptyOf(a) == IF a.kind = "bytes" THEN V("bytes", 0, "plain", 1) ELSE V(a.kind, 3, "plain", 0)
 AllowedDelivered(a, v) ==
   IF v = Absent THEN (IF a.mode = "default" THEN {DefaultOf(a)} ELSE IF IsContainer(a) /\ a.mode = "required" THEN {Absent, EmptyOf(a)} ELSE {Absent})
@@ -77,6 +78,11 @@ ViolationNames(as, vs) == UNION {{ViolationOf(as[i], d) : d \in {e \in AllowedDe
 \*   validate.absent_collection_length   MinLength of an optional list / map is applied to the unset (nil) value
 \*   response.header_array_joined   the server writes a list-valued response header as one "a, b" line, the
 \*                                  client reads one value per line: lists of two or more elements do not survive
+\*   decode.mapparams_prefix_expected   MapParams() with a map payload: the client writes key=value, the server decoder only
+\*                                  reads keys of the form query[key]: the map arrives empty
+\*   validate.map_value_required_unchecked   a map whose values are a user type with nothing but Required(..) on primitive
+\*                                  attributes: the values are not validated; an entry lacking the attribute is dereferenced
+\*                                  when the transport type is converted (the decoder crashes instead of answering 400)
 Dev(d) == d \in cfg.devs       \* the enabled deviations travel with the case (Explain_HTTPTransport varies them per case)
 
 \* what the client puts on the wire for one attribute
@@ -107,6 +113,7 @@ ReadBack(a, w) ==
   LET dflt == IF a.mode = "default" THEN DefaultOf(a) ELSE Absent
       c == IF w.loc = "none" THEN Absent ELSE Carried(a, w.v) IN
   IF w.loc = "none" THEN dflt
+  ELSE IF a.nest = "whole_mapval" /\ a.loc = "query" /\ Dev("decode.mapparams_prefix_expected") THEN EmptyOf(a)
   ELSE IF a.loc = "body" THEN c
   ELSE IF a.kind = "string" /\ a.nest \in {"direct", "alias", "whole"} /\ c.s = "empty" /\ Dev("param.empty_string_is_absent") THEN dflt
   ELSE IF a.loc = "path" /\ a.kind = "string" /\ c.s = "pcthex" /\ Dev("mux.double_unescape")
@@ -118,8 +125,10 @@ Routed == \A i \in PIdx : ~(cfg.pa[i].loc = "path" /\ cfg.pa[i].kind = "string" 
 
 \* validation as the server performs it
 \*   validate.exclusive_max_unchecked   with both ExclusiveMinimum and ExclusiveMaximum only the minimum is checked
+RequiredUnchecked(a, d) == d # Absent /\ d.s = "nofield" /\ a.nest = "mapval_nested" /\ a.rule = "none" /\ Dev("validate.map_value_required_unchecked")
 ServerValid(a, d) ==
   IF d = Absent /\ a.mode = "optional" /\ a.rule = "cminlen" /\ Dev("validate.absent_collection_length") THEN FALSE
+  ELSE IF RequiredUnchecked(a, d) THEN TRUE
   ELSE IF d # Absent /\ a.rule = "xrange" /\ Dev("validate.exclusive_max_unchecked") THEN Num2(d) > 2 * Lo
   ELSE ValidAttr(a, d)
 \*   decode.required_cookie_drops_param_errors   decoding a required cookie overwrites the error accumulated while
@@ -144,14 +153,14 @@ Init ==
 PickP ==
   /\ pc = "pick" /\ Len(cfg.pa) < NPA
   /\ IF Family = "req"
-     THEN \E a \in AttrSpace : \E v \in PayloadVals(a) :
+     THEN \E a \in AttrSpace : \E v \in PayloadVals(a) \cup NoFieldVals(a) :
             /\ cfg' = [cfg EXCEPT !.pa = Append(@, a)] /\ pv' = Append(pv, v)
      ELSE cfg' = [cfg EXCEPT !.pa = Append(@, FixedAttr)] /\ pv' = Append(pv, FixedVal)
   /\ UNCHANGED <<rv, pc, wire, delivered, invoked, status, errname, rwire, returned, cerr>>
 PickR ==
   /\ pc = "pick" /\ Len(cfg.pa) = NPA /\ Len(cfg.ra) < NRA
   /\ IF Family = "res"
-     THEN \E a \in {x \in AttrSpace : ResAttrOK(x)} : \E v \in PayloadVals(a) :
+     THEN \E a \in {x \in AttrSpace : ResAttrOK(x)} : \E v \in PayloadVals(a) \cup NoFieldVals(a) :
             /\ (v = Absent => a.mode # "required")
             /\ cfg' = [cfg EXCEPT !.ra = Append(@, a)] /\ rv' = Append(rv, v)
      ELSE cfg' = [cfg EXCEPT !.ra = Append(@, FixedAttr)] /\ rv' = Append(rv, FixedVal)
@@ -183,7 +192,9 @@ ServerDecode ==
 ServerValidate ==
   /\ pc = "validate"
   /\ IF \A i \in PIdxOf(cfg.pa) : ServerValid(cfg.pa[i], delivered[i]) \/ CookieDropsErrorsOf(i)
-     THEN pc' = "invoke" /\ UNCHANGED <<status, errname>>
+     THEN IF \E i \in PIdxOf(cfg.pa) : RequiredUnchecked(cfg.pa[i], delivered[i])
+          THEN pc' = "cswitch" /\ status' = 500 /\ errname' = "none"          \* nil dereference while building the payload
+          ELSE pc' = "invoke" /\ UNCHANGED <<status, errname>>
      ELSE /\ pc' = "cswitch" /\ status' = 400
           /\ errname' \in {ServerViolation(cfg.pa[i], delivered[i]) : i \in {j \in PIdxOf(cfg.pa) : ~ServerValid(cfg.pa[j], delivered[j]) /\ ~CookieDropsErrorsOf(j)}}
   /\ UNCHANGED <<cfg, pv, rv, wire, delivered, invoked, rwire, returned, cerr>>
@@ -218,7 +229,8 @@ ClientDecode ==
   /\ UNCHANGED <<cfg, pv, rv, wire, delivered, invoked, status, errname, rwire>>
 ClientValidate ==
   /\ pc = "cvalidate"
-  /\ cerr' = IF \A j \in RIdx : ServerValid(cfg.ra[j], returned[j]) THEN "result" ELSE "validation"
+  /\ cerr' = IF \E j \in RIdx : RequiredUnchecked(cfg.ra[j], returned[j]) THEN "none"        \* the client crashes building the result
+             ELSE IF \A j \in RIdx : ServerValid(cfg.ra[j], returned[j]) THEN "result" ELSE "validation"
      \* (a joined string list is one odd element: whether it passes the element rule depends on the rule)
   /\ pc' = "done"
   /\ UNCHANGED <<cfg, pv, rv, wire, delivered, invoked, status, errname, rwire, returned>>
